@@ -21,7 +21,7 @@ def ensure(flavours):
     return build_repo.ensure(flavours)
 
 
-def run_ops(harness_dir, lines, workdir, tag, exe="harness_main", timeout=1800, env=None):
+def run_ops(harness_dir, lines, workdir, tag, exe="harness_main", timeout=1800, env=None, atomic=False):
     """Runs the op lines; returns list of outputs (one per line). A crash, sanitizer abort or
     timeout is attributed to the line being executed: its output becomes
     'CRASH <kind> <first report line>' and the run resumes with the next line."""
@@ -45,6 +45,17 @@ def run_ops(harness_dir, lines, workdir, tag, exe="harness_main", timeout=1800, 
         if rc == 0 and len(got) == remaining:
             outs.extend(got)
             break
+        if atomic:
+            # concurrent batch: the whole batch is the unit of failure
+            kind = "timeout" if rc == -999 else f"rc={rc}"
+            rep = ""
+            for l in err.split("\n"):
+                if "ThreadSanitizer" in l or "ERROR:" in l or "runtime error" in l:
+                    rep = l.strip()[:300]
+                    break
+            with open(os.path.join(workdir, f"{tag}.stderr.txt"), "w") as fh:
+                fh.write(err[-20000:])
+            return [f"CRASH {kind} {rep}"] * len(lines)
         # crash / timeout: complete lines are trusted, the next one is the culprit
         good = got[:remaining]
         if rc != 0 and len(good) == remaining:
